@@ -149,11 +149,14 @@ impl DataChunk {
     /// Concatenate two chunks in rows.
     pub fn row_concat(self, other: Self) -> Self {
         assert_eq!(self.cardinality(), other.cardinality());
-        self.arrays
-            .iter()
-            .chain(other.arrays.iter())
-            .cloned()
-            .collect()
+        // (not `collect()`: two chunks without columns still have their rows)
+        DataChunk {
+            arrays: (self.arrays.iter())
+                .chain(other.arrays.iter())
+                .cloned()
+                .collect(),
+            cardinality: self.cardinality,
+        }
     }
 }
 
